@@ -240,17 +240,17 @@ const G_WILL_A: u32 = 0b111 << 15; // will delay, will payload format indicator,
 const G_WILL_B: u32 = 0b111 << 18; // will content type, will response topic, will correlation data
 
 //@ h name=enc_connect_inta_none props=C01 tier=quick cap=mid to=1200
-//@ h name=enc_connect_inta_all props=C01 tier=thorough cap=mid to=1800
-//@ h name=enc_connect_intb_none props=C01 tier=thorough cap=mid to=1200
+//@ h name=enc_connect_inta_all props=C01 tier=off cap=mid to=1800
+//@ h name=enc_connect_intb_none props=C01 tier=off cap=mid to=1200
 //@ h name=enc_connect_intb_all props=C01 tier=quick cap=mid to=1800
-//@ h name=enc_connect_str_none props=C01 tier=quick cap=mid to=1200
-//@ h name=enc_connect_str_all props=C01 tier=thorough cap=mid to=1800
-//@ h name=enc_connect_misc_none props=C01 tier=thorough cap=mid to=1200
-//@ h name=enc_connect_misc_all props=C01 tier=quick cap=mid to=1800
+//@ h name=enc_connect_str_none props=C01 tier=off cap=mid to=1200
+//@ h name=enc_connect_str_all props=C01 tier=off cap=mid to=1800
+//@ h name=enc_connect_misc_none props=C01 tier=off cap=mid to=1200
+//@ h name=enc_connect_misc_all props=C01 tier=off cap=mid to=1800
 //@ h name=enc_connect_willa_none props=C01 tier=quick cap=mid to=1200
-//@ h name=enc_connect_willa_all props=C01 tier=thorough cap=mid to=1800
-//@ h name=enc_connect_willb_none props=C01 tier=thorough cap=mid to=1200
-//@ h name=enc_connect_willb_all props=C01 tier=quick cap=mid to=1800
+//@ h name=enc_connect_willa_all props=C01 tier=off cap=mid to=1800
+//@ h name=enc_connect_willb_none props=C01 tier=quick cap=mid to=1200
+//@ h name=enc_connect_willb_all props=C01 tier=off cap=mid to=1800
 //@ claim: ConnectOpts -> ConnectTx::encode: packet_len() equals the bytes written; the reference decoder accepts the bytes as exactly one well-formed CONNECT and returns exactly the supplied values (flags at the standard's bits, property and remaining length fields equal to what follows); authentication data without a method is refused by build() before anything is encoded
 //@ bounds: per harness a group of 3-4 optional fields has symbolic presence (all subsets decided by the solver), the other optional fields are all absent (_none) or all present (_all); integers/booleans/QoS full range; strings/binaries concrete content of length 2-3 (_all) or 0 (_none); user properties and will user properties: 0 (_none) or 2 (_all) each; will absent or topic+payload present (will QoS/retain without a will and a will with only topic or only payload are outside MQTT 5's domain)
 //@ funcs: ConnectOpts::*, ConnectTxBuilder::build/validate, ConnectTx::encode, ConnectTx::packet_len, ConnectTx::remaining_len, ConnectTx::property_len, ConnectTx::will_property_len, ConnectTx::payload_len, ConnectTx::payload_flags, ConnectTx::will_flag, VarSizeInt::encode, property Encode impls
@@ -340,7 +340,7 @@ fn enc_auth_body(sl: usize, nu: usize) {
 
 //@ h name=enc_auth props=C01 tier=quick cap=small to=900
 //@ h name=enc_auth_u1 props=C01 tier=thorough cap=small to=900
-//@ h name=enc_auth_u2_empty_strings props=C01 tier=quick cap=small to=900
+//@ h name=enc_auth_u2_empty_strings props=C01 tier=off cap=small to=900
 //@ claim: AuthTxBuilder (what AuthOpts wraps) -> AuthTx::encode: every subset of {reason, method, data, reason string} with 0 / 1 / 2 user properties (concrete per harness): either refused by build() (extended authentication without both method and data) or packet_len() equals the bytes written and the reference decoder finds exactly one well-formed AUTH with the supplied reason and properties; shortened form iff Success and no properties
 //@ bounds: all presence bits symbolic; reason over its three codes; strings concrete content of length 3 (enc_auth) or 0 (enc_auth_empty_strings)
 //@ funcs: AuthTxBuilder::build/validate, AuthTx::encode, AuthTx::packet_len, AuthTx::remaining_len, AuthTx::property_len, AuthTx::is_shortened
